@@ -33,6 +33,8 @@ type faultW struct {
 	script  []int
 	calls   []destCall
 	asLevel bool
+	salt    int // selects how many bytes a short write accepts: len-1, 0, 1 or len/2
+	shorts  [4]int
 }
 
 func (w *faultW) outcome(p []byte) (int, error) {
@@ -45,7 +47,9 @@ func (w *faultW) outcome(p []byte) (int, error) {
 	case oErr:
 		return 0, fmt.Errorf("dest%d-call%d", w.id, i)
 	case oShort:
-		return len(p) - 1, nil
+		k := (w.salt + w.id + i) & 3
+		w.shorts[k]++
+		return []int{len(p) - 1, 0, 1, len(p) / 2}[k], nil
 	}
 	return len(p), nil
 }
@@ -76,17 +80,18 @@ type c14case struct {
 	levels   []zerolog.Level
 	single   bool // no MultiLevelWriter: one destination directly
 	viaWrite bool // the multi writer is reached through its plain Write method (wrapped in a LevelWriterAdapter)
+	salt     int  // short-write size selector (see faultW.outcome)
 }
 
 func (c *c14case) String() string {
-	return fmt.Sprintf("{dests=%d events=%d outcomes(event-major)=%v filters=%v plainWriter=%v levels=%v single=%v viaWrite=%v}", c.d, c.e, c.matrix, c.filter, c.plain, c.levels, c.single, c.viaWrite)
+	return fmt.Sprintf("{dests=%d events=%d outcomes(event-major)=%v filters=%v plainWriter=%v levels=%v single=%v viaWrite=%v shortSalt=%d}", c.d, c.e, c.matrix, c.filter, c.plain, c.levels, c.single, c.viaWrite, c.salt)
 }
 
 func c14run(out *evid.Out, c *c14case) {
 	dests := make([]*faultW, c.d)
 	ws := make([]io.Writer, c.d)
 	for i := 0; i < c.d; i++ {
-		dests[i] = &faultW{id: i}
+		dests[i] = &faultW{id: i, salt: c.salt}
 		var w io.Writer
 		if c.plain[i] {
 			w = plainFaultW{dests[i]}
@@ -184,6 +189,12 @@ func c14run(out *evid.Out, c *c14case) {
 			out.Violate("handler-error", fmt.Sprintf("event %d: short write not surfaced as io.ErrShortWrite; %s", ei, c), rep)
 		}
 	}
+	for _, dw := range dests {
+		out.Count("short_writes_len_minus_1", int64(dw.shorts[0]))
+		out.Count("short_writes_0_bytes", int64(dw.shorts[1]))
+		out.Count("short_writes_1_byte", int64(dw.shorts[2]))
+		out.Count("short_writes_half", int64(dw.shorts[3]))
+	}
 	// per destination log
 	for di := 0; di < c.d; di++ {
 		if c.single && di > 0 {
@@ -237,6 +248,7 @@ func c14(args []string) int {
 				}
 				// variant 0: no filters, all LevelWriters, info level; variant 1: random filters / plain writers / levels
 				for variant := 0; variant < 2; variant++ {
+					c.salt = m + variant
 					for i := 0; i < d; i++ {
 						c.filter[i], c.plain[i] = -99, false
 						if variant == 1 {
@@ -304,6 +316,7 @@ func c14(args []string) int {
 			}
 		}
 		c.viaWrite = r.Chance(1, 4)
+		c.salt = r.Intn(4)
 		c14run(out, c)
 		out.Case(rng.HashStr(c.String()), true)
 		out.Count("random_cases", 1)
